@@ -180,7 +180,64 @@ Fix ==
                       (IF clean /\ WithinBounds(C, fs, par) THEN C01_Fix(C, r.fs, r.out) ELSE <<>>)
     /\ UNCHANGED <<C, ghost, ndmg, tick, clean, dmg>>
 
+(* ---- the rest of the command set (explored when Ext is TRUE: configuration ArrayMC_ext) ---- *)
+Ext == FALSE
+ExtOn == TRUE
+
+(* rehash: schedule the hash migration *)
+RehashCmd ==
+    /\ Step("Rehash") /\ ~RehashInProgress(C) /\ \E q \in 1..Len(C.info) : C.info[q].p
+    /\ C' = RehashMarked(C)
+    /\ pviol' = IF dmg THEN <<>> ELSE C06(C', par)
+    /\ UNCHANGED <<fs, par, ghost, ndmg, tick, clean, dmg>>
+
+(* scrub of everything: never marks a stripe of an undamaged array, never touches parity or data *)
+ScrubFull ==
+    /\ Step("Scrub")
+    /\ LET r == ScrubResult(C, fs, par, PlanSel(C, "full"), Now, {l \in Levels : Len(par[l]) > 0})
+       IN /\ C' = r.C
+          /\ pviol' = IF dmg THEN <<>>
+                      ELSE C06(r.C, par) \o
+                           (IF r.out.marked # {} THEN <<<<"C04", "scrub-marks-without-damage", r.out.marked>>>> ELSE <<>>)
+    /\ UNCHANGED <<fs, par, ghost, ndmg, tick, clean, dmg>>
+
+(* sync -R: every stable file is re-inserted *)
+SyncRealloc ==
+    /\ Step("SyncR")
+    /\ LET r == SyncResult(C, fs, fs, par, Now, [force_realloc |-> TRUE] @@ Opts, NoSrcs)
+       IN /\ C' = r.C
+          /\ par' = r.par
+          /\ ghost' = GhostAfter(r.C, ClearPast(C), fs)
+          /\ clean' = (r.out.exit = "ok" /\ ~ParityInvalid(r.C) /\ NoDifference(r.C, fs) /\ ~dmg)
+          /\ pviol' = IF dmg THEN <<>> ELSE C06(r.C, r.par)
+    /\ UNCHANGED <<fs, ndmg, tick, dmg>>
+
+(* fix under a filter: a selection of files (as -f / -d give), only missing files (-m), only files / stripes marked bad
+   (-e / -b).  Files outside the selection are never written; what is written is right or reported (C05). *)
+Untouched(f0, f1, c, ex) ==
+    \A d \in D : \A n \in ex[d] : IF n \in DOMAIN f0[d] THEN n \in DOMAIN f1[d] /\ f1[d][n] = f0[d][n] ELSE n \notin DOMAIN f1[d]
+FixWith(name, flt, allstripes) ==
+    /\ Step(name)
+    /\ LET r == FixRangeF(C, fs, par, {l \in Levels : l \notin flt.pex \/ Len(par[l]) > 0}, flt, <<>>, NoExt)
+       IN /\ fs' = r.fs
+          /\ par' = r.par
+          /\ cov' = {}
+          /\ pviol' = (IF allstripes THEN C05_Fix(C, ghost, fs, [d \in D |-> [n \in DOMAIN r.fs[d] \ flt.ex[d] |-> r.fs[d][n]]], r.out.unrec) ELSE <<>>) \o
+                      (IF ~Untouched(fs, r.fs, C, flt.ex) THEN <<<<"C05", "wrote-unselected", flt.ex>>>> ELSE <<>>) \o
+                      (IF \E l \in flt.pex : r.par[l] # par[l] THEN <<<<"C12", "fix-wrote-excluded-parity", flt.pex>>>> ELSE <<>>)
+    /\ UNCHANGED <<C, ghost, ndmg, tick, clean, dmg>>
+FixDisk(d) == FixWith("FixD", FilterOf(C, [NoFilter EXCEPT !.disks = {d}]), TRUE)
+FixName(n) == FixWith("FixF", FilterOf(C, [NoFilter EXCEPT !.usenames = TRUE, !.names = [d \in D |-> {n}]]), TRUE)
+FixMissing == FixWith("FixM", FilterOf(C, [NoFilter EXCEPT !.missing = TRUE, !.exists = [d \in D |-> DOMAIN fs[d]]]), TRUE)
+FixBad(kind) == FixWith("FixE", FilterOf(C, [NoFilter EXCEPT !.bad = kind]), FALSE)
+
+ExtNext == \/ RehashCmd \/ ScrubFull \/ SyncRealloc \/ FixMissing
+           \/ \E d \in D : FixDisk(d)
+           \/ \E n \in Names : FixName(n)
+           \/ \E k \in {"file", "block"} : FixBad(k)
+
 Next ==
+    \/ (Ext /\ ExtNext)
     \/ \E d \in D, n \in Names, b \in Contents : Write(d, n, b)
     \/ \E d \in D, n \in Names : Delete(d, n) \/ Restore(d, n) \/ SyncMid(d, n) \/ LoseFile(d, n)
     \/ \E d \in D, n \in Names, i \in 1..2 : CorruptBlock(d, n, i)
